@@ -5,10 +5,14 @@ package main
 
 import (
 	"fmt"
+	"go/token"
 	"go/types"
 	"reflect"
+	"sort"
 	"strconv"
 	"strings"
+
+	"golang.org/x/tools/go/ssa"
 )
 
 type Kind int
@@ -199,10 +203,11 @@ func (m *Model) probe() {
 			m.Problems = append(m.Problems, fmt.Sprintf("model probe failed: ttlv.getFieldTag consults %v, expected field name before type", order))
 		}
 	}
-	// struct builders apply wrappers omitempty -> version range -> set-version on both sides
+	// struct builders apply wrappers omitempty -> version range -> set-version on both sides, each under its own
+	// flag only (a field may carry several options: `omitempty,version=1.2..`), chained on one variable
 	for _, fn := range []string{"buildStructEncodeFunc", "buidStructDecodeFunc"} {
-		fd := p.FuncDecl("ttlv", "", fn)
-		if fd == nil {
+		sf := p.Func("ttlv", "", fn)
+		if sf == nil {
 			m.Problems = append(m.Problems, "anchor missing: ttlv."+fn)
 			continue
 		}
@@ -210,11 +215,129 @@ func (m *Model) probe() {
 		if strings.Contains(fn, "Decode") {
 			suffix = "Decode"
 		}
-		order := callOrder(tt, fd, []string{"applyOmitEmpty" + suffix, "applyVersionRange" + suffix, "applySetVersion" + suffix})
-		if strings.Join(order, ",") != "applyOmitEmpty"+suffix+",applyVersionRange"+suffix+",applySetVersion"+suffix {
-			m.Problems = append(m.Problems, fmt.Sprintf("model probe failed: ttlv.%s applies wrappers %v", fn, order))
+		m.Problems = append(m.Problems, wrapperProbe(sf, suffix)...)
+	}
+}
+
+// wrapperProbe: in a struct plan builder, applyOmitEmptyX / applyVersionRangeX / applySetVersionX are each called once,
+// in that order, each guarded by exactly its own fieldInfo flag (and by no other fieldInfo flag), each taking the current
+// field function and storing its result back into the variable the plan closure captures.
+func wrapperProbe(sf *ssa.Function, suffix string) []string {
+	var problems []string
+	want := []struct{ callee, flag string }{{"applyOmitEmpty" + suffix, "omitempty"}, {"applyVersionRange" + suffix, "vrange"}, {"applySetVersion" + suffix, "setVersion"}}
+	calls := map[string][]*ssa.Call{}
+	allInstrs(sf, func(in ssa.Instruction) {
+		if c, ok := in.(*ssa.Call); ok {
+			if sc := c.Call.StaticCallee(); sc != nil {
+				id := idOf(sc)
+				if id.pkg == ttlvPath && id.recv == "" {
+					calls[id.name] = append(calls[id.name], c)
+				}
+			}
+		}
+	})
+	// flags of fieldInfo a condition reads
+	var flagsOf func(v ssa.Value, d int, out map[string]bool)
+	flagsOf = func(v ssa.Value, d int, out map[string]bool) {
+		if d > 6 || v == nil {
+			return
+		}
+		switch x := v.(type) {
+		case *ssa.BinOp:
+			flagsOf(x.X, d+1, out)
+			flagsOf(x.Y, d+1, out)
+		case *ssa.UnOp:
+			flagsOf(x.X, d+1, out)
+		case *ssa.Field:
+			if typeName(x.X.Type()) == "fieldInfo" {
+				out[derefStruct(x.X.Type()).Field(x.Field).Name()] = true
+			}
+		case *ssa.FieldAddr:
+			if typeName(x.X.Type()) == "fieldInfo" {
+				out[derefStruct(x.X.Type()).Field(x.Field).Name()] = true
+			}
+		case *ssa.Phi:
+			for _, e := range x.Edges {
+				flagsOf(e, d+1, out)
+			}
 		}
 	}
+	var prev *ssa.Call
+	var cell ssa.Value
+	for _, w := range want {
+		cs := calls[w.callee]
+		if len(cs) != 1 {
+			problems = append(problems, fmt.Sprintf("model probe failed: %s calls %s %d times, expected once", fnKey(sf), w.callee, len(cs)))
+			continue
+		}
+		c := cs[0]
+		own, other := false, []string{}
+		for _, dc := range dominatingConds(c.Block()) {
+			fl := map[string]bool{}
+			flagsOf(dc.cond, 0, fl)
+			for f := range fl {
+				if f == w.flag {
+					// polarity: `flag` true, or `flag != nil` true, or `flag == nil` false
+					pol := dc.outcome
+					if bo, ok := dc.cond.(*ssa.BinOp); ok && bo.Op == token.EQL {
+						pol = !pol
+					}
+					if uo, ok := dc.cond.(*ssa.UnOp); ok && uo.Op == token.NOT {
+						pol = !pol
+					}
+					if pol {
+						own = true
+					} else {
+						other = append(other, "!"+f)
+					}
+				} else if f != "tag" {
+					other = append(other, f)
+				}
+			}
+		}
+		if !own || len(other) > 0 {
+			sort.Strings(other)
+			problems = append(problems, fmt.Sprintf("model probe failed: in %s the wrapper %s is not applied exactly when fieldInfo.%s is set (own flag tested: %v; also conditioned on: %v): a field carrying several options loses one of them", fnKey(sf), w.callee, w.flag, own, other))
+		}
+		// chaining: the function argument is a load of the cell, the result is stored back into it
+		var argCell, resCell ssa.Value
+		for _, a := range c.Call.Args {
+			if u, ok := a.(*ssa.UnOp); ok && u.Op == token.MUL {
+				if _, isF := u.Type().Underlying().(*types.Signature); isF {
+					argCell = u.X
+				}
+			}
+		}
+		for _, ref := range *c.Referrers() {
+			if st, ok := ref.(*ssa.Store); ok && st.Val == ssa.Value(c) {
+				resCell = st.Addr
+			}
+		}
+		if argCell == nil || resCell == nil || argCell != resCell || (cell != nil && cell != argCell) {
+			problems = append(problems, fmt.Sprintf("model probe failed: in %s the wrapper %s does not wrap the current field function and replace it (the wrappers must chain on one variable)", fnKey(sf), w.callee))
+		}
+		if cell == nil {
+			cell = argCell
+		}
+		if prev != nil && !(prev.Pos() < c.Pos()) {
+			problems = append(problems, fmt.Sprintf("model probe failed: in %s the wrappers are not applied in the order omitempty, version range, set-version", fnKey(sf)))
+		}
+		prev = c
+	}
+	// the cell is captured by the per-field closure
+	if cell != nil {
+		captured := false
+		for _, ref := range *cell.Referrers() {
+			if mc, ok := ref.(*ssa.MakeClosure); ok {
+				_ = mc
+				captured = true
+			}
+		}
+		if !captured {
+			problems = append(problems, fmt.Sprintf("model probe failed: in %s the wrapped field function is not the one the per-field plan closure uses", fnKey(sf)))
+		}
+	}
+	return problems
 }
 
 func (m *Model) implements(t types.Type, iface *types.Interface) bool {
